@@ -168,6 +168,10 @@ pub struct TypeChecker {
     pub file_to_namespace: HashMap<FileOrLib, NamespaceID>,
     /// The variables that name a blob or an enum declaration - they aren't values.
     type_declarations: BTreeSet<usize>,
+    // Constants whose definition has been checked: reading one gives a fresh instance of its
+    // (function) type. Parameters, mutable variables and a function inside its own body are not
+    // in here - they have one type.
+    generalised: BTreeSet<usize>,
 }
 
 #[derive(Clone, Debug, Copy)]
@@ -210,6 +214,7 @@ impl TypeChecker {
                 .map(|(a, b)| (b.clone(), a.clone()))
                 .collect(),
             type_declarations: BTreeSet::new(),
+            generalised: BTreeSet::new(),
         };
         for var in variables {
             let ty = res.push_type(Type::Unknown);
@@ -436,6 +441,15 @@ impl TypeChecker {
             // But this might be caught somewhere else?
             let (value_ret, value_ty) = self.expression(value, ctx)?;
             self.unify(*span, ctx, var_ty, value_ty)?;
+            // Only what is written as a function - or names one - can be used at several types.
+            let names_a_function = match value {
+                E::Function { .. } => true,
+                E::Read { var: other, .. } => self.generalised.contains(other),
+                _ => false,
+            };
+            if kind.immutable() && names_a_function {
+                self.generalised.insert(*var);
+            }
             Ok(value_ret)
         } else {
             unreachable!("Not a definition!");
@@ -669,6 +683,7 @@ impl TypeChecker {
                     self.find_node_mut(ty).ty = Type::Function(args, ret, Purity::Impure);
                 }
                 self.unify(*span, ctx, self.variables[*var].ty, ty)?;
+                self.generalised.insert(*var);
             }
 
             S::Assignment { .. }
@@ -729,6 +744,7 @@ impl TypeChecker {
                         self.variables[*var].name
                     );
                 }
+                let generalised = self.generalised.contains(var);
                 let var = &self.variables[*var];
                 let immutable = var.kind.immutable();
                 if ctx.inside_pure && !immutable {
@@ -739,7 +755,12 @@ impl TypeChecker {
                         "Cannot access mutable variables from pure functions"
                     );
                 }
-                no_ret(var.ty)
+                let ty = var.ty;
+                if generalised && matches!(self.find_type(ty), Type::Function { .. }) {
+                    no_ret(self.copy(ty))
+                } else {
+                    no_ret(ty)
+                }
             }
             E::Variant { ty, variant, value, span } => {
                 if !self.type_declarations.contains(ty) {
@@ -817,9 +838,8 @@ impl TypeChecker {
                 let field_ty = self.push_type(Type::Unknown);
                 self.add_constraint(outer, *span, Constraint::Field(field.clone(), field_ty));
                 self.check_constraints(*span, ctx, outer)?;
-                // TODO(ed): Don't we do this further down? Do we need this code?
-                // We copy functions
-                let field_ty = match self.find_type(outer) {
+                // A function in a field is instantiated afresh every time it is read.
+                let field_ty = match self.find_type(field_ty) {
                     Type::Function(_, _, _) => self.copy(field_ty),
                     _ => field_ty,
                 };
@@ -1148,11 +1168,7 @@ impl TypeChecker {
             E::Bool(_, _) => no_ret(self.push_type(Type::Bool)),
             E::Nil(_) => no_ret(self.push_type(Type::Nil)),
         }?;
-        // TODO[ed]: Don't agressively copy function! D:
-        match self.find_type(expr) {
-            Type::Function { .. } => with_ret(expr_ret, self.copy(expr)),
-            _ => with_ret(expr_ret, expr),
-        }
+        with_ret(expr_ret, expr)
     }
 
     fn find(&mut self, TyID(a): TyID) -> TyID {
